@@ -27,6 +27,46 @@ package kmsg
 //@   ite(key == 88, 0, ite(key == 89, 0, ite(key == 90, 1, ite(key == 91, 0, ite(key == 92, 0,
 //@   -1)))))))))))))))))))))))))))))))))))))))))))))))))))))))))))))))))))))))))))))))))))))))))))))
 //@ spec knownKey(key int16) bool = 0 <= key && key < 93
+// nameOf: the name per key, one table against which the request type's name (minus "Request"), the response type's
+// name (minus "Response") and NameForKey's string are all checked. Written out from RequestForKey's arms by a script.
+//@ spec nameOf(key int16) string = ite(key == 0, "Produce", ite(key == 1, "Fetch",
+//@   ite(key == 2, "ListOffsets", ite(key == 3, "Metadata", ite(key == 4, "LeaderAndISR",
+//@   ite(key == 5, "StopReplica", ite(key == 6, "UpdateMetadata", ite(key == 7, "ControlledShutdown",
+//@   ite(key == 8, "OffsetCommit", ite(key == 9, "OffsetFetch", ite(key == 10, "FindCoordinator",
+//@   ite(key == 11, "JoinGroup", ite(key == 12, "Heartbeat", ite(key == 13, "LeaveGroup",
+//@   ite(key == 14, "SyncGroup", ite(key == 15, "DescribeGroups", ite(key == 16, "ListGroups",
+//@   ite(key == 17, "SASLHandshake", ite(key == 18, "ApiVersions", ite(key == 19, "CreateTopics",
+//@   ite(key == 20, "DeleteTopics", ite(key == 21, "DeleteRecords", ite(key == 22, "InitProducerID",
+//@   ite(key == 23, "OffsetForLeaderEpoch", ite(key == 24, "AddPartitionsToTxn",
+//@   ite(key == 25, "AddOffsetsToTxn", ite(key == 26, "EndTxn", ite(key == 27, "WriteTxnMarkers",
+//@   ite(key == 28, "TxnOffsetCommit", ite(key == 29, "DescribeACLs", ite(key == 30, "CreateACLs",
+//@   ite(key == 31, "DeleteACLs", ite(key == 32, "DescribeConfigs", ite(key == 33, "AlterConfigs",
+//@   ite(key == 34, "AlterReplicaLogDirs", ite(key == 35, "DescribeLogDirs",
+//@   ite(key == 36, "SASLAuthenticate", ite(key == 37, "CreatePartitions",
+//@   ite(key == 38, "CreateDelegationToken", ite(key == 39, "RenewDelegationToken",
+//@   ite(key == 40, "ExpireDelegationToken", ite(key == 41, "DescribeDelegationToken",
+//@   ite(key == 42, "DeleteGroups", ite(key == 43, "ElectLeaders", ite(key == 44, "IncrementalAlterConfigs",
+//@   ite(key == 45, "AlterPartitionAssignments", ite(key == 46, "ListPartitionReassignments",
+//@   ite(key == 47, "OffsetDelete", ite(key == 48, "DescribeClientQuotas", ite(key == 49, "AlterClientQuotas",
+//@   ite(key == 50, "DescribeUserSCRAMCredentials", ite(key == 51, "AlterUserSCRAMCredentials",
+//@   ite(key == 52, "Vote", ite(key == 53, "BeginQuorumEpoch", ite(key == 54, "EndQuorumEpoch",
+//@   ite(key == 55, "DescribeQuorum", ite(key == 56, "AlterPartition", ite(key == 57, "UpdateFeatures",
+//@   ite(key == 58, "Envelope", ite(key == 59, "FetchSnapshot", ite(key == 60, "DescribeCluster",
+//@   ite(key == 61, "DescribeProducers", ite(key == 62, "BrokerRegistration",
+//@   ite(key == 63, "BrokerHeartbeat", ite(key == 64, "UnregisterBroker",
+//@   ite(key == 65, "DescribeTransactions", ite(key == 66, "ListTransactions",
+//@   ite(key == 67, "AllocateProducerIDs", ite(key == 68, "ConsumerGroupHeartbeat",
+//@   ite(key == 69, "ConsumerGroupDescribe", ite(key == 70, "ControllerRegistration",
+//@   ite(key == 71, "GetTelemetrySubscriptions", ite(key == 72, "PushTelemetry",
+//@   ite(key == 73, "AssignReplicasToDirs", ite(key == 74, "ListConfigResources",
+//@   ite(key == 75, "DescribeTopicPartitions", ite(key == 76, "ShareGroupHeartbeat",
+//@   ite(key == 77, "ShareGroupDescribe", ite(key == 78, "ShareFetch", ite(key == 79, "ShareAcknowledge",
+//@   ite(key == 80, "AddRaftVoter", ite(key == 81, "RemoveRaftVoter", ite(key == 82, "UpdateRaftVoter",
+//@   ite(key == 83, "InitializeShareGroupState", ite(key == 84, "ReadShareGroupState",
+//@   ite(key == 85, "WriteShareGroupState", ite(key == 86, "DeleteShareGroupState",
+//@   ite(key == 87, "ReadShareGroupStateSummary", ite(key == 88, "StreamsGroupHeartbeat",
+//@   ite(key == 89, "StreamsGroupDescribe", ite(key == 90, "DescribeShareGroupOffsets",
+//@   ite(key == 91, "AlterShareGroupOffsets", ite(key == 92, "DeleteShareGroupOffsets", "Unknown")))))))))))))))))))))))))))))))))))))))))))))))))))))))))))))))))))))))))))))))))))))))))))))
 
 // r.Key() and r.MaxVersion() below are the methods of the concrete type the function returns at that return
 // statement (each arm returns a freshly made *T): constant functions, read off the code by the verifier.
@@ -36,13 +76,16 @@ package kmsg
 //@   ensures [known-keys-have-a-request] (r != nil) == knownKey(key)
 //@   ensures [request-carries-its-key] r != nil ==> r.Key() == key
 //@   ensures [request-max-version] r != nil ==> int(r.MaxVersion()) == maxVersionOf(key)
+//@   ensures [request-type-carries-the-name] r != nil ==> typename(r, "Request") == nameOf(key)
 //@ func ResponseForKey(key int16) (r Response)
 //@   prop C24
 //@   nopanic
 //@   ensures [known-keys-have-a-response] (r != nil) == knownKey(key)
 //@   ensures [response-carries-its-key] r != nil ==> r.Key() == key
 //@   ensures [response-max-version-agrees] r != nil ==> int(r.MaxVersion()) == maxVersionOf(key)
+//@   ensures [response-type-carries-the-name] r != nil ==> typename(r, "Response") == nameOf(key)
 //@ func NameForKey(key int16) (s string)
 //@   prop C24
 //@   nopanic
 //@   ensures [unknown-exactly-for-unknown-keys] (s == "Unknown") == !knownKey(key)
+//@   ensures [name-agrees-with-the-types] s == nameOf(key)
